@@ -306,3 +306,9 @@ theorem loopNest_shift (num m n r0 : Nat) (e : Fin num → Fin num → Nat → N
   exact block_shift num m r0 e i k j l
 
 end Compmech.PanelLoop
+
+namespace Compmech.PanelLoop
+open Compmech.Asm
+variable {K : Type} [Field K]
+
+end Compmech.PanelLoop
